@@ -37,6 +37,8 @@ EXTRA = [
     ['al@a.com1', 'http://www.b.net/x 1', 'letmein'],
     # several different sections of the same kind and length inside ONE password, all with tied counts (order among ties must not depend on hashing)
     ['kot7pes', '12ab34', '!!a??', 'hax1juk', 'dac2nep', 'paw3fig', '56cd78', '##b$$', 'Kot7Pes'],
+    # capitals that lower-casing leaves as they are (their lower case is longer, or does not exist): the mask still says U
+    ['\u0130stanbul', 'istanbul', '\u0130brahim1453', '\u0130STANBUL', '\u211deal12', 'Istanbul', 'istanbul'],
 ]
 COVERAGES = [0.6, 1.0, 0.0, 0.25, 0.5]
 
